@@ -41,6 +41,9 @@ def run_text(p):
         try:
             g = FJSPFileGenerator(tmp)
             back = g(batch_size=[B])
+            again = g(batch_size=[B])
+            if tuple(again["proc_times"].shape) != tuple(back["proc_times"].shape) or not torch.equal(again["proc_times"], back["proc_times"]):
+                bad.append(f"a second request for {B} instance(s) from the {B} written file(s) returns a batch of shape {tuple(again['proc_times'].shape)} instead of the same instances again (first: {tuple(back['proc_times'].shape)})")
         except Exception as e:  # noqa: BLE001
             return {"violations": [f"reading the written files back raised {type(e).__name__}: {str(e)[:150]}"]}
         finally:
@@ -142,6 +145,31 @@ def run_npz(p):
                 wl, wb = (dl / cap, db / cap) if scale else (dl, db)
                 if not torch.allclose(back["demand_linehaul"], wl) or not torch.allclose(back["demand_backhaul"], wb):
                     bad.append(f"scale={scale}: loaded demands are not the stored ones {'divided by the original capacity' if scale else ''}")
+    finally:
+        shutil.rmtree(tmp, ignore_errors=True)
+    return {"violations": bad[:3]}
+
+
+def run_cvrp_bits(p):
+    import numpy as np
+
+    from rl4co.envs.routing.cvrp.env import CVRPEnv
+
+    d, caps = p["d"], p["caps"]
+    tmp = tempfile.mkdtemp(prefix="verif_c19_")
+    bad = []
+    try:
+        f = os.path.join(tmp, "d.npz")
+        nb, n = len(caps), len(d)
+        dem = torch.tensor([d] * nb, dtype=torch.float32)
+        cap = torch.tensor(caps, dtype=torch.float32)
+        np.savez(f, locs=torch.zeros(nb, n, 2).numpy(), depot=torch.zeros(nb, 2).numpy(), demand=dem.numpy(), capacity=cap.numpy())
+        back = CVRPEnv.load_data(f)
+        ref = dem / cap[:, None]  # what the generator computes in memory: demand / capacity
+        for b in range(nb):
+            for j in range(n):
+                if back["demand"][b, j].item() != ref[b, j].item():
+                    bad.append(f"capacity {caps[b]:g}, demand {d[j]}: loaded {back['demand'][b, j].item()!r} != in-memory normalisation {ref[b, j].item()!r}")
     finally:
         shutil.rmtree(tmp, ignore_errors=True)
     return {"violations": bad[:3]}
